@@ -56,6 +56,8 @@ var realStub = map[string]string{
 	"CometBFT consensus/p2p/mempool":                                         "stub: sequencer + block delivery with delay/partition/burst catch-up; ABCI handshake replay re-implemented",
 	"x/gov proposals changing consensus parameters (submit, deposit, vote, tally, execution in EndBlock)": "real (SDK x/gov and x/consensus inside the real app; voting period 10 s and minimum deposit 1umed set in the simulated genesis)",
 	"governance vote leading to the upgrade plan":                            "half of the upgrades: real (x/gov proposal with MsgSoftwareUpgrade, vote, tally, execution in EndBlock(H-1)); the other half: stub (UpgradeKeeper.ScheduleUpgrade in the deliver context of block H-1 on every replica); upgrade-info.json dumped by the harness in both",
+	"x/crisis MsgVerifyInvariant, x/group proposals (EXEC_TRY) carrying custom messages, bank MsgSetSendEnabled and community-pool spends through x/gov, x/authz grants and MsgExec": "real (SDK modules inside the real app, driven by signed transactions)",
+	"host environment of a node (HOME, USER, locale, cosmovisor and PANACEAD_* variables, working directory, GOMAXPROCS, local time zone, app.toml service options)": "simulated per replica inside one process (set around application construction and block execution of each non-reference replica); host name, CPU count and process id are common to all replicas and not varied",
 	"wall clock":                                                             "real (simulated time = block header time)",
 }
 
